@@ -35,6 +35,18 @@ legal forms (exponent notation, CRLF, one line, padding, leading +), reversed di
 1.0 % ASHRAE rows, and every list / dict / collection they hand out is edited in place between the reads;
 psychrometrics.py is called by keyword, with magnitudes 1e-12 .. 1e+16 and with one counted stratum per branch.
 
+Round 6 (positional results: a filter / de-duplication / clamp added to a sequence whose entry i belongs to entry i
+of the source data): every chart generator now draws about half of its charts with states that do NOT fit between
+the chart's temperature limits (below / above / both / exactly on the limits and one ulp beyond / all but one /
+only the second state) and a third with the same state repeated (counters chartdata:*); `data_points` is compared
+as a WHOLE tuple with the Lean model `Chart.dataPoints` (`drv_c09 datapts`, Model/PsychroChart.lean: one entry per
+state, the chart's limits play no part) in the correspondence and in the chart histories; the oracle requires one
+point per state and that point i converts back to state i (clauses chart_data_points_length, chart_inverse,
+charthist_read); the new read `labels` requires of the five curve families (temperature, relative humidity,
+humidity ratio, enthalpy, wet bulb) that label i, label point i and line i belong together and none is left out
+(chart_family_counts, chart_temperature_label, chart_rh_label, chart_hr_label, chart_label_on_line).  Theorems
+C09_data_points_length / _aligned / _invert_t / _append, C09_dd_hourly_lengths.
+
 Partial by nature (DESIGN.md section 9): everything that needs certified numerics of exp/log (solver
 outputs, Magnus closeness, continuity at 0 C, monotonicity across the branch point) is a *sampled
 sub-claim* evaluated by the oracle on the real code and reported under `sampled_subclaims`.
@@ -67,7 +79,10 @@ RULE = ('correspondence: every function of psychrometrics.py + HumidityCondition
         'container x scalar given as int / text / exponent text x entry (constructor, reversed dictionary) x maximum '
         'humidity ratio x fractional limits; design day x text form of the IDF / dictionary order / tuple; returned '
         'containers edited in place between reads; keyword calls; magnitudes 1e-12..1e+16; one counted stratum per '
-        'branch of the anchored functions (branch:* counters)')
+        'branch of the anchored functions (branch:* counters). Round 6: chart data x position relative to the chart '
+        '(all on the chart / some below / some above / both sides of the temperature limits, values exactly on a limit '
+        'and 1e-9 / one ulp beyond, all but one state off the chart) x repeated states; the whole data_points tuple '
+        'against the model; the label / label point / line families read together (chartdata:* counters)')
 EXTRACTORS = 'tools/extract/psychro_formulas.py'
 TRUSTED_BASE = [
     'translator tools/extract/pyexpr2lean.py + psychro_formulas.py (Python ast -> Lean for straight-line numeric '
@@ -518,18 +533,61 @@ def _make_chart(par, tvals, rhvals, hrmax=0.03):
 
 
 def _chart_data(rng, par):
+    """24 states for a chart.  Round 6: about half of the charts get states that do NOT fit between the chart's
+    temperature limits (the chart accepts them: the coloured mesh leaves them out, every positional result -
+    data_points - keeps one entry per state).  Index 0 stays on the chart (the single-value shapes use it and the
+    constructor refuses a chart without any state on it)."""
     use_ip, tmin, tmax = par[0], par[5], par[6]
     lo, hi = ((tmin - 32) / 1.8, (tmax - 32) / 1.8) if use_ip else (tmin, tmax)
+    lo0, hi0 = lo, hi
     lo, hi = max(lo, -40.0), min(hi, 55.0)
     tv = [rng.uniform(lo, hi) for _ in range(24)]
     tv[0] = (lo + hi) / 2.0
     rv = [_rh(rng) for _ in range(24)]
+    kind = rng.choice(['none', 'none', 'none', 'below', 'above', 'both', 'edge', 'most', 'second'])
+    below = lambda: rng.choice([lo0 - 1e-9, lo0 - 0.5, rng.uniform(max(lo0 - 30.0, -70.0), lo0 - 1e-6)])
+    above = lambda: rng.choice([hi0 + 1e-9, hi0 + 0.5, rng.uniform(hi0 + 1e-6, min(hi0 + 25.0, 75.0))])
+    if kind in ('below', 'above', 'both'):
+        for i in rng.sample(range(1, 24), rng.randrange(1, 12)):
+            tv[i] = below() if kind == 'below' or (kind == 'both' and rng.random() < 0.5) else above()
+    elif kind == 'edge':
+        # exactly on the limits (on the chart) next to values just beyond them
+        for i, v in zip(rng.sample(range(1, 24), 6), [lo0, hi0, lo0 - 1e-9, hi0 + 1e-9, math.nextafter(lo0, -1e9),
+                                                       math.nextafter(hi0, 1e9)]):
+            tv[i] = v
+    elif kind == 'most':
+        keep = rng.randrange(1, 24)
+        for i in range(1, 24):
+            if i != keep:
+                tv[i] = below() if rng.random() < 0.5 else above()
+    elif kind == 'second':
+        tv[1] = below() if rng.random() < 0.5 else above()
+    if rng.random() < 0.3:
+        # the same state several times (next to each other and apart): every occurrence keeps its own entry
+        i = rng.randrange(0, 24)
+        for j in set([(i + 1) % 24] + rng.sample(range(1, 24), 2)) - {0}:
+            tv[j], rv[j] = tv[i], rv[i]
     return tv, rv
+
+
+def _chart_offchart(par, tv):
+    """Counter name for the data of a chart: do all states lie between the chart's temperature limits?"""
+    use_ip, tmin, tmax = par[0], par[5], par[6]
+    tc = [t * 9. / 5. + 32. if use_ip else t for t in tv]
+    b, a = sum(1 for t in tc if t < tmin), sum(1 for t in tc if t > tmax)
+    return 'chartdata:' + ('all_on_chart' if not (a or b) else
+                           'below_and_above' if (a and b) else 'some_below' if b else 'some_above')
+
+
+def _chart_repeats(tv, rv):
+    """Counter name: does the same state occur more than once among several different states?"""
+    st = list(zip(tv, rv))
+    return 'chartdata:' + ('repeated_states' if 1 < len(set(st)) < len(st) else 'no_repeated_state')
 
 
 def _corr_chart(ctx):
     rng = ctx.rng
-    pts, dpts = [], []
+    pts, dpts, whole = [], [], []
     for _ in range(ctx.n(25, 300)):
         par = _chart_params(rng)
         tv, rv = _chart_data(rng, par)
@@ -537,6 +595,9 @@ def _corr_chart(ctx):
         use_ip, bx, by, xd, yd, tmin, tmax, p = par
         head = [bx, by, xd, yd, float(tmin), p]
         ctx.count('chart:ip' if use_ip else 'chart:si')
+        ctx.count(_chart_offchart(par, tv))
+        ctx.count(_chart_repeats(tv, rv))
+        whole.append((use_ip, head, tv, rv, ch))
         for i in range(24):
             dpts.append((use_ip, head, tv[i], rv[i], ch, i))
         for _ in range(12):
@@ -556,6 +617,10 @@ def _corr_chart(ctx):
 
     _compare(ctx, 'plot', pts, line('plot'), impl_plot, 1e-12)
     _compare(ctx, 'datapt', dpts, line('datapt'), impl_data, 1e-12)
+    # the whole tuple against Chart.dataPoints (one entry per state, in the order of the data, on the chart or not)
+    _compare(ctx, 'datapts', whole,
+             lambda c: 'datapts %s %s' % ('1' if c[0] else '0', ' '.join(_fbits(x) for x in c[1] + c[2] + c[3])),
+             lambda c: _flat_pts(c[4].data_points), 1e-12)
 
 
 # ---------------------------------------------------------------------------------------------
@@ -853,6 +918,12 @@ def check_case(op, inp):
         ch = _make_chart(par, tv, rv)
         pts = ch.data_points
         prev = None
+        _cnt(_chart_offchart(par, tv))
+        _cnt(_chart_repeats(tv, rv))
+        # positional: one point per state of the data, on the chart or not (only the coloured mesh leaves states out)
+        if not _sub('chart_one_point_per_state', len(pts) == len(tv)):
+            return _fail('data_points has one entry per state of the data: %d' % len(tv), len(pts),
+                         clause='chart_data_points_length', ip=use_ip, data=_chart_offchart(par, tv))
         for i, (tc, rh) in enumerate(zip(tv, rv)):
             t_chart = tc * 9. / 5. + 32. if use_ip else tc
             q = ch.plot_point(t_chart, rh)
@@ -1792,7 +1863,8 @@ def _check_dd_ashrae(inp):
 
 # -- psychrometric chart: histories of reads on one (immutable, lazily filled) object -------------------------
 
-CHART_READS = ('data_points', 'plot', 'rh_lines', 'sat', 'tlines', 'hr_lines', 'border', 'enth', 'wb', 'mesh', 'redict')
+CHART_READS = ('data_points', 'plot', 'rh_lines', 'sat', 'tlines', 'hr_lines', 'border', 'enth', 'wb', 'mesh', 'redict',
+               'labels')
 
 
 def _flat_pts(pts):
@@ -1830,6 +1902,22 @@ def _chart_read(ch, name, arg):
             [float(x.split()[0]) for x in ch.wb_labels] + _flat_pts(ch.wb_label_points)
     if name == 'mesh':
         return _flat_pts(ch.colored_mesh.vertices)
+    if name == 'labels':
+        # round 6: the positional families label i <-> label point i <-> line i of the five kinds of curves:
+        # 15 counts, then per family the label numbers, the label points and what identifies the line
+        tl, tp, ts = ch.temperature_labels, ch.temperature_label_points, ch.temperature_lines
+        rl, rp, rs = ch.rh_labels, ch.rh_label_points, ch.rh_lines
+        hl, hp, hs = ch.hr_labels, ch.hr_label_points, ch.hr_lines
+        el, ep, es = ch.enthalpy_labels, ch.enthalpy_label_points, ch.enthalpy_lines
+        wl, wp, ws = ch.wb_labels, ch.wb_label_points, ch.wb_lines
+        out = [float(len(x)) for x in (tl, tp, ts, rl, rp, rs, hl, hp, hs, el, ep, es, wl, wp, ws)]
+        out += [float(x) for x in tl] + [q.x for q in tp] + [sg.p1.x for sg in ts]
+        out += [float(x.rstrip('%')) for x in rl] + _flat_pts(rp) + _flat_pts([pl.vertices[0] for pl in rs])
+        out += [float(x) for x in hl] + [q.y for q in hp] + [sg.p1.y for sg in hs]
+        for lab, pts, segs in ((el, ep, es), (wl, wp, ws)):
+            out += [float(x.split()[0]) for x in lab] + _flat_pts(pts) + \
+                [c for sg in segs for c in (sg.p1.x, sg.p1.y, sg.p2.x, sg.p2.y)]
+        return out
     if name == 'redict':
         c2 = type(ch).from_dict(ch.to_dict())
         return _flat_pts(c2.data_points) + _flat_pts(c2.saturation_line.vertices)
@@ -2020,6 +2108,8 @@ def _check_chart_history(inp):
     shape_sig = inp.get('shape', '24') + ('' if inp.get('coll', 'hourly') == 'hourly' else ':' + inp['coll'])
     seen = {}
     _cnt('branch:chart_ip' if use_ip else 'branch:chart_si')
+    _cnt(_chart_offchart(par, tv))
+    _cnt(_chart_repeats(tv, rv))
     _cnt('branch:chart_single_temperature' if inp.get('shape', '24') in ('scalar_t', 'one') else 'branch:chart_many_t')
 
     def state(x, y):
@@ -2143,6 +2233,53 @@ def _check_chart_history(inp):
                 if not _sub('chart_hr_line', ok):
                     return _fail('humidity-ratio line %r runs at y = %r from the saturation curve' % (lab, y_want),
                                  [x1, y1, x2, y2], clause='chart_hr_line', ip=use_ip)
+        # round 6, positional families: label i, label point i and line i belong together, none is left out
+        if name == 'labels':
+            n = [int(v) for v in vals[:15]]
+            pos = [15]
+
+            def take(k):
+                part = vals[pos[0]:pos[0] + k]
+                pos[0] += k
+                return part
+            fam = ('temperature', 'relative humidity', 'humidity ratio', 'enthalpy', 'wet bulb')
+            for f in range(5):
+                if not _sub('chart_family_counts', n[3 * f] == n[3 * f + 1] == n[3 * f + 2]):
+                    return _fail('as many %s labels as label points as lines' % fam[f], n[3 * f:3 * f + 3],
+                                 clause='chart_family_counts', family=fam[f], ip=use_ip)
+            t_lab, t_px, t_lx = take(n[0]), take(n[1]), take(n[2])
+            for k in range(n[0]):
+                back = tmin + (t_lx[k] - bx) / xd
+                if not _sub('chart_temperature_label', abs(back - t_lab[k]) <= 1e-9 * max(1.0, abs(back)) and
+                            abs(t_px[k] - t_lx[k]) <= 1e-9 * max(1.0, abs(t_lx[k]))):
+                    return _fail('temperature line %d (x = %r, label point x = %r) stands at its label %r' %
+                                 (k, t_lx[k], t_px[k], t_lab[k]), back, clause='chart_temperature_label', ip=use_ip)
+            r_lab, r_pts, r_first = take(n[3]), take(2 * n[4]), take(2 * n[5])
+            for k in range(n[3]):
+                tc, hr = state(r_first[2 * k], r_first[2 * k + 1])
+                back = ps.rel_humid_from_db_hr(tc, hr, p)
+                if not _sub('chart_rh_label', r_lab[k] == 10.0 * (k + 1) and
+                            abs(back - r_lab[k]) <= HR_RH_BOUND * r_lab[k] + 1e-6):
+                    return _fail('curve %d starts in a state of the relative humidity of its label %r' % (k, r_lab[k]),
+                                 back, clause='chart_rh_label', ip=use_ip)
+            h_lab, h_py, h_ly = take(n[6]), take(n[7]), take(n[8])
+            for k in range(n[6]):
+                back = (h_ly[k] - by) / yd
+                if not _sub('chart_hr_label', abs(back - h_lab[k]) <= 1e-9 + 1e-9 * abs(by / yd) and
+                            abs(h_py[k] - h_ly[k]) <= 1e-9 * max(1.0, abs(h_ly[k]))):
+                    return _fail('humidity-ratio line %d (y = %r, label point y = %r) runs at its label %r' %
+                                 (k, h_ly[k], h_py[k], h_lab[k]), back, clause='chart_hr_label', ip=use_ip)
+            for f in (3, 4):
+                lab, pts, segs = take(n[3 * f]), take(2 * n[3 * f + 1]), take(4 * n[3 * f + 2])
+                for k in range(n[3 * f]):
+                    x1, y1, x2, y2 = segs[4 * k:4 * k + 4]
+                    qx, qy = pts[2 * k], pts[2 * k + 1]
+                    vx, vy, wx, wy = x2 - x1, y2 - y1, qx - x1, qy - y1
+                    cross = abs(vx * wy - vy * wx)
+                    if not _sub('chart_label_on_line', cross <= 1e-7 * max(1e-300, math.hypot(vx, vy) * math.hypot(wx, wy))):
+                        return _fail('the label point %d of the %s lines lies on the extension of line %d' %
+                                     (k, fam[f], k), [qx, qy, x1, y1, x2, y2], clause='chart_label_on_line',
+                                     family=fam[f], ip=use_ip)
         # mesh of hours: every vertex lies on the base line or on a curve of 5, 10, ... 100 % relative humidity
         if name == 'mesh':
             for a in range(0, len(vals), 2):
@@ -2755,8 +2892,9 @@ def _chart_compare_model(ctx, tag, inp, results):
         if name == 'plot':
             lines.append(['plot %s %s' % ('1' if use_ip else '0', ' '.join(_fbits(x) for x in head + [arg[0], arg[1]]))])
         elif name == 'data_points':
-            lines.append(['datapt %s %s' % ('1' if use_ip else '0', ' '.join(_fbits(x) for x in head + [t, r]))
-                          for t, r in zip(tv, rv)])
+            # the whole tuple (Chart.dataPoints): one entry per state of the data, whatever the chart's limits
+            lines.append(['datapts %s %s' % ('1' if use_ip else '0',
+                                             ' '.join(_fbits(x) for x in head + list(tv) + list(rv)))])
         elif name == 'rh_lines':
             # relative_humidity_polyline(rh, 1) for rh = 10 .. 100: the vertices below the cut-off (Model/PsychroChart)
             lines.append(['rhline %s %s' % ('1' if use_ip else '0',
@@ -2854,7 +2992,8 @@ def _chart_compare_model(ctx, tag, inp, results):
 #                                visible from outside and not counted separately)
 #   _compute_border              max_hr > hmax / else ........ branch:border_5_vertices, branch:border_4_vertices
 #   _compute_enthalpy_range / _compute_wb_range  2 / 1 / 0 intersections: branch:enth_lines_*, read `wb`
-#   _compute_hour_values         value outside the chart ..... refused_first 'offchart' and generated data beyond range
+#   _compute_hour_values         value outside the chart ..... refused_first 'offchart' and (round 6) the generated
+#                                data of about half of the charts: chartdata:some_below / some_above / below_and_above
 # Caller / callee conventions (kind g) checked against relations that do not share the code path:
 #   relative_humidity_polyline -> db_temp_from_rh_hr(rh %, kg/kg, Pa) -> C -> F : chart_rh_cutoff
 #   hr_lines -> db_temp_from_rh_hr(100, label) : chart_hr_line
